@@ -2,6 +2,7 @@
 from __future__ import annotations
 
 import ast
+import re
 
 from ..core import INCONCLUSIVE, OK, VIOLATION, Ctx, is_self_attr, local_defs, canon
 from ..model import AnalysisError, Inconclusive, body_walk, norm
@@ -268,8 +269,18 @@ def r03_3(ctx: Ctx):
         w = sorted(e for e in ctx.eff.of(acc_m) if e[0] in ("WRITE", "GLOBALWRITE"))
         obs.append(ctx.ob("R03.3", acc_m, acc_m.node, status=VIOLATION if w else OK, detail=f"{acc_m.short} caches state while counting ({w[0][1]}): a memoised evaluation count is not updated when the deme evaluates again, so totals (and eval-limit stop conditions) fall behind the real number of calls" if w else f"{acc_m.short} is computed live (no stores)", witness=ctx.eff.chain(acc_m, w[0]) if w else [], construct=f"{acc_m.short}:live"))
     ad = ctx.prog.own_method("DemeTree", "all_demes")
-    ok, why = _all_demes_unfiltered(ad)
-    obs.append(ctx.ob("R03.3", ad, ad.node, status=OK if ok else VIOLATION, detail="all_demes enumerates every deme of every level" if ok else f"all_demes {why}", construct="all_demes"))
+    from .common import deme_listing
+
+    dl = deme_listing(ctx, "DemeTree", "all_demes")
+    if dl["levels"] is None or dl["elt"] == "?" or any(x.startswith("?") for x in dl["filters"]):
+        st_ad, why = INCONCLUSIVE, f"cannot tell which demes all_demes enumerates ({dl['why'] or sorted(dl['filters'])})"
+    elif dl["levels"] < 0:
+        st_ad, why = VIOLATION, f"all_demes leaves out the last {-dl['levels']} level(s)"
+    elif dl["filters"]:
+        st_ad, why = VIOLATION, f"all_demes filters demes ({', '.join(sorted(dl['filters']))})"
+    else:
+        st_ad, why = OK, ""
+    obs.append(ctx.ob("R03.3", ad, ad.node, status=st_ad, detail="all_demes enumerates every deme of every level" if st_ad == OK else why, construct="all_demes"))
     # per-level sums in summary()
     s = ctx.prog.own_method("DemeTree", "summary")
     found = 0
@@ -520,6 +531,116 @@ def r03_5(ctx: Ctx):
     return obs
 
 
+def _weighted_limit_status(w, tp, wdefs, rets):
+    """FitnessEvalLimitReached.__call__ returns (sum over every deme of weight[level] * deme.n_evaluations) >= limit."""
+    from ..core import canon
+
+    sn = w.self_name()
+    v = None
+    if len(rets) == 2:
+        # running total with an early exit (the summands are non-negative, so the running total is monotone):
+        #   acc = 0; for .. in ..: acc += E; if acc OP limit: return True;   return False | return acc OP limit
+        loops = [n for n in w.node.body if isinstance(n, ast.For) and not n.orelse]
+        if len(loops) == 1 and len(loops[0].body) == 2 and isinstance(loops[0].body[0], ast.AugAssign) and isinstance(loops[0].body[0].op, ast.Add) and isinstance(loops[0].body[0].target, ast.Name) and isinstance(loops[0].body[1], ast.If) and not loops[0].body[1].orelse:
+            acc = loops[0].body[0].target.id
+            iff = loops[0].body[1]
+            tail = w.node.body[-1]
+            inner_ret = iff.body[0] if len(iff.body) == 1 and isinstance(iff.body[0], ast.Return) else None
+            init = wdefs.get(acc, [])
+            init_ok = any(isinstance(d_, ast.Constant) and d_.value in (0, 0.0) for d_ in init)
+            if inner_ret is not None and isinstance(inner_ret.value, ast.Constant) and inner_ret.value.value is True and isinstance(iff.test, ast.Compare) and isinstance(tail, ast.Return) and init_ok and acc in {x.id for x in ast.walk(iff.test) if isinstance(x, ast.Name)}:
+                tail_ok = (isinstance(tail.value, ast.Constant) and tail.value.value is False) or norm(tail.value) == norm(iff.test)
+                if tail_ok:
+                    import copy as _copy
+
+                    class _R(ast.NodeTransformer):
+                        def visit_Name(self, node):
+                            if node.id == acc:
+                                return ast.Call(func=ast.Name(id="sum", ctx=ast.Load()), args=[ast.GeneratorExp(elt=_copy.deepcopy(loops[0].body[0].value), generators=[ast.comprehension(target=_copy.deepcopy(loops[0].target), iter=_copy.deepcopy(loops[0].iter), ifs=[], is_async=0)])], keywords=[])
+                            return node
+                    v = ast.fix_missing_locations(_R().visit(_copy.deepcopy(iff.test)))
+    if v is None:
+        if len(rets) != 1 or rets[0].value is None:
+            return INCONCLUSIVE, f"{len(rets)} return statements"
+        v = rets[0].value
+    hops = 0
+    while isinstance(v, ast.Name) and v.id in wdefs and len(wdefs[v.id]) == 1 and hops < 4:
+        v = wdefs[v.id][0]
+        hops += 1
+    neg = False
+    while isinstance(v, ast.UnaryOp) and isinstance(v.op, ast.Not):
+        v, neg = v.operand, not neg
+    if not (isinstance(v, ast.Compare) and len(v.ops) == 1):
+        return INCONCLUSIVE, f"returns `{norm(v)[:90]}`, not a comparison with the limit"
+    l, r, op = v.left, v.comparators[0], type(v.ops[0])
+    if canon(l, wdefs) == f"{sn}.limit":
+        l, r = r, l
+        op = {ast.Lt: ast.Gt, ast.Gt: ast.Lt, ast.LtE: ast.GtE, ast.GtE: ast.LtE}.get(op, op)
+    if neg:
+        op = {ast.Lt: ast.GtE, ast.GtE: ast.Lt, ast.Gt: ast.LtE, ast.LtE: ast.Gt}.get(op, op)
+    if canon(r, wdefs) != f"{sn}.limit":
+        return (VIOLATION if isinstance(r, ast.Constant) else INCONCLUSIVE), f"the weighted count is compared with `{norm(r)[:40]}`, not with the limit"
+    total = l
+    hops = 0
+    while isinstance(total, ast.Name) and total.id in wdefs and len(wdefs[total.id]) == 1 and hops < 4:
+        total = wdefs[total.id][0]
+        hops += 1
+    comp = None
+    if isinstance(total, ast.Call) and norm(total.func) == "sum" and len(total.args) == 1:
+        comp = total.args[0]
+    elif isinstance(total, ast.Call) and norm(total.func) in ("reduce", "functools.reduce") and len(total.args) in (2, 3) and norm(total.args[0]) in ("operator.add", "add") and (len(total.args) == 2 or (isinstance(total.args[2], ast.Constant) and total.args[2].value in (0, 0.0))):
+        comp = total.args[1]
+    hops = 0
+    while isinstance(comp, ast.Name) and comp.id in wdefs and len(wdefs[comp.id]) == 1 and hops < 4:
+        comp = wdefs[comp.id][0]
+        hops += 1
+    if not isinstance(comp, (ast.GeneratorExp, ast.ListComp)):
+        if not any(isinstance(x, ast.Attribute) and x.attr == "n_evaluations" for x in ast.walk(total)) and not isinstance(total, ast.Name):
+            return VIOLATION, f"the quantity compared with the limit, `{norm(total)[:70]}`, is not built from the demes' evaluation counts"
+        return INCONCLUSIVE, f"cannot read `{norm(total)[:70]}` as a sum over demes"
+    gens = comp.generators
+    deme_v = level_txts = None
+    if len(gens) == 1 and canon(gens[0].iter, wdefs) == f"{tp}.all_demes" and isinstance(gens[0].target, ast.Tuple) and len(gens[0].target.elts) == 2 and all(isinstance(x, ast.Name) for x in gens[0].target.elts):
+        deme_v = gens[0].target.elts[1].id
+        level_txts = {gens[0].target.elts[0].id, f"{deme_v}._level", f"{deme_v}.level"}
+    elif len(gens) == 2 and canon(gens[0].iter, wdefs) in (f"{tp}.levels", f"{tp}._levels") and isinstance(gens[0].target, ast.Name) and isinstance(gens[1].iter, ast.Name) and gens[1].iter.id == gens[0].target.id and isinstance(gens[1].target, ast.Name):
+        deme_v = gens[1].target.id
+        level_txts = {f"{deme_v}._level", f"{deme_v}.level"}
+    elif len(gens) == 2 and isinstance(gens[0].iter, ast.Call) and norm(gens[0].iter.func) == "enumerate" and len(gens[0].iter.args) == 1 and canon(gens[0].iter.args[0], wdefs) in (f"{tp}.levels", f"{tp}._levels") and isinstance(gens[0].target, ast.Tuple) and len(gens[0].target.elts) == 2 and isinstance(gens[1].iter, ast.Name) and gens[1].iter.id == norm(gens[0].target.elts[1]) and isinstance(gens[1].target, ast.Name):
+        deme_v = gens[1].target.id
+        level_txts = {norm(gens[0].target.elts[0]), f"{deme_v}._level", f"{deme_v}.level"}
+    else:
+        srcs = ", ".join(canon(g.iter, wdefs) for g in gens)
+        if any(k in srcs for k in (".leaves", ".active_demes", ".active_non_leaves", "levels[", ".root")):
+            return VIOLATION, f"sums over `{srcs[:80]}`, not over every deme of every level"
+        return INCONCLUSIVE, f"cannot tell which demes `{srcs[:80]}` ranges over"
+    if any(g.ifs for g in gens):
+        return VIOLATION, "filters the demes whose evaluations are counted (" + ", ".join(norm(c) for g in gens for c in g.ifs)[:80] + ")"
+    elt = comp.elt
+    factors = []
+
+    def flat(e):
+        if isinstance(e, ast.BinOp) and isinstance(e.op, ast.Mult):
+            flat(e.left)
+            flat(e.right)
+        else:
+            factors.append(e)
+    flat(elt)
+    cnt = [x for x in factors if canon(x, wdefs) == f"{deme_v}.n_evaluations"]
+    wts = [x for x in factors if isinstance(x, ast.Subscript) and canon(x.value, wdefs) == f"{sn}.weights"]
+    if len(cnt) != 1:
+        return (VIOLATION if not any(isinstance(x, ast.Attribute) and x.attr == "n_evaluations" for x in ast.walk(elt)) else INCONCLUSIVE), f"the summand `{norm(elt)[:70]}` is not weight * deme.n_evaluations"
+    if len(factors) == 1:
+        return VIOLATION, "the evaluation counts are summed without their level weights"
+    if len(wts) != 1 or len(factors) != 2:
+        return INCONCLUSIVE, f"cannot read the summand `{norm(elt)[:70]}` as weight[level] * deme.n_evaluations"
+    if canon(wts[0].slice, wdefs) not in level_txts:
+        return INCONCLUSIVE, f"the weight is indexed by `{norm(wts[0].slice)}`: cannot tell whether that is the deme's level"
+    if op is not ast.GtE:
+        return VIOLATION, f"the limit counts as reached only when the weighted count is `{ {ast.Gt: '>', ast.Lt: '<', ast.LtE: '<=', ast.Eq: '=='}.get(op, '?')}` the limit, not `>=`"
+    return OK, ""
+
+
 def r03_6(ctx: Ctx):
     """R03.6 eval-limit stop conditions read the live counters over all demes."""
     from ..core import canon
@@ -531,17 +652,20 @@ def r03_6(ctx: Ctx):
     tp = m.params()[1]
     t = canon(rets[0].value, defs) if len(rets) == 1 else ""
     ok = t in (f"{tp}.n_evaluations>={m.self_name()}.limit", f"{m.self_name()}.limit<={tp}.n_evaluations", f"not{tp}.n_evaluations<{m.self_name()}.limit")
-    obs.append(ctx.ob("R03.6", m, m.node, status=OK if ok else VIOLATION, detail="tree.n_evaluations >= limit" if ok else f"SingularProblemEvalLimitReached returns `{t}` instead of tree.n_evaluations >= limit", construct="singular"))
+    from ..core import cond_is
+
+    if not ok and len(rets) == 1 and cond_is(rets[0].value, f"{tp}.n_evaluations >= {m.self_name()}.limit", defs):
+        ok = True
+    definite = (not ok) and (re.fullmatch(re.escape(tp) + r"\.n_evaluations(>|==|<|<=)" + re.escape(m.self_name()) + r"\.limit", t) is not None or "n_evaluations" not in t)
+    obs.append(ctx.ob("R03.6", m, m.node, status=OK if ok else VIOLATION if definite else INCONCLUSIVE, detail="tree.n_evaluations >= limit" if ok else f"SingularProblemEvalLimitReached returns `{t}` instead of tree.n_evaluations >= limit", construct="singular"))
     w = ctx.prog.own_method("FitnessEvalLimitReached", "__call__")
     tp = w.params()[1]
     wdefs = local_defs(w)
     rets = [n for n in body_walk(w.node) if isinstance(n, ast.Return)]
     t = canon(rets[0].value, wdefs) if len(rets) == 1 else ""
-    import re
 
-    mm = re.fullmatch(r"sum\(\((.+)for(\w+),(\w+)in%s\.all_demes\)\)>=%s\.limit" % (re.escape(tp), re.escape(w.self_name())), t)
-    ok = bool(mm) and f"{mm.group(3)}.n_evaluations" in mm.group(1) and "weights" in mm.group(1)
-    obs.append(ctx.ob("R03.6", w, rets[0] if rets else w.node, status=OK if ok else VIOLATION if ("n_evaluations" not in t or "all_demes" not in t or ">=" not in t) else INCONCLUSIVE, detail="weighted sum of deme.n_evaluations over tree.all_demes >= limit" if ok else f"FitnessEvalLimitReached returns `{t[:110]}`, not (weighted sum of deme.n_evaluations over tree.all_demes) >= limit", construct="weighted"))
+    st_w, why_w = _weighted_limit_status(w, tp, wdefs, rets)
+    obs.append(ctx.ob("R03.6", w, rets[0] if rets else w.node, status=st_w, detail="weighted sum of deme.n_evaluations over tree.all_demes >= limit" if st_w == OK else f"FitnessEvalLimitReached: {why_w}", construct="weighted"))
     obs.append(ctx.ob("R03.6", w, w.node, detail="comparator checked together with the sum", construct="weighted-cmp", trivial=True))
     return obs
 
